@@ -2,9 +2,6 @@ package worlds
 
 import (
 	azip "archive/zip"
-	"os"
-	"path/filepath"
-	"time"
 	"bytes"
 	"crypto/sha256"
 	"encoding/base64"
@@ -12,8 +9,11 @@ import (
 	"fmt"
 	"io"
 	"math/rand"
+	"os"
+	"path/filepath"
 	"sort"
 	"strings"
+	"time"
 
 	"golang.org/x/mod/sumdb/dirhash"
 
